@@ -44,6 +44,9 @@ func getStatusWithMetadata(
 	updatedStatus.ResourcesStatus.Allocated = metaData.Allocated
 	if !metaData.Preemptible {
 		updatedStatus.ResourcesStatus.AllocatedNonPreemptible = metaData.Allocated
+	} else if len(updatedStatus.ResourcesStatus.AllocatedNonPreemptible) > 0 {
+		// a group that became preemptible must not keep reporting non-preemptible allocation
+		updatedStatus.ResourcesStatus.AllocatedNonPreemptible = nil
 	}
 
 	return updatedStatus
